@@ -319,11 +319,9 @@ func main() {
 		var alpha []op
 		for k := 0; k < 2; k++ {
 			for _, c := range cookies {
-				for _, empty := range []bool{false, true} {
+				for _, class := range []string{"", "E", "C"} { // unique payload, empty payload, constant payload
 					o := op{Kind: "W", K: k, Cookie: c}
-					if empty {
-						o.Blob.Name = "E" // marker, replaced below
-					}
+					o.Blob.Name = class // marker, replaced below
 					alpha = append(alpha, o)
 				}
 			}
@@ -345,7 +343,12 @@ func main() {
 				for i := 0; i < L; i++ {
 					o := alpha[idx[i]]
 					if o.Kind == "W" {
-						o.Blob = smallBlob(o.Blob.Name == "E")
+						class := o.Blob.Name
+						o.Blob = smallBlob(class == "E")
+						if class == "C" {
+							// identical bytes on every such write: reaches the "unchanged" shortcut
+							o.Blob.Data = []byte("constant-payload")
+						}
 						hasWrite = true
 					}
 					ops[i] = o
@@ -355,7 +358,7 @@ func main() {
 				if hasWrite {
 					r.Nontrivial(sigk)
 				}
-				if L == maxLen && idx[0] == 0 && idx[L-1] == 3 {
+				if L == maxLen && idx[0] == 0 && idx[L-1] == 4 {
 					r.Sample(map[string]interface{}{"map": kindName(kind), "ops": ops})
 				}
 				// next
@@ -388,6 +391,7 @@ func main() {
 		mimes := []string{"", "image/png", string(bytes.Repeat([]byte("m"), 255))}
 		for h := 0; h < nh; h++ {
 			ops := make([]op, 0, nops)
+			lastData := map[int][]byte{}
 			sigk := fmt.Sprintf("rand/%s/%d", kindName(kind), h)
 			for i := 0; i < nops; i++ {
 				x := rng.Intn(100)
@@ -404,6 +408,10 @@ func main() {
 					case 2:
 						b.LastModified = uint64(time.Now().Unix())
 					}
+					if d, ok := lastData[k]; ok && rng.Intn(4) == 0 {
+						b.Data = d // byte-identical re-upload (same or other cookie, other metadata)
+					}
+					lastData[k] = b.Data
 					ops = append(ops, op{Kind: "W", K: k, Cookie: cookies[rng.Intn(2)], Blob: b})
 				case x < 80:
 					ops = append(ops, op{Kind: "D", K: k})
